@@ -79,9 +79,12 @@ package wkbcommon
 //@   loop 1: invariant fresh(result) && result != nil
 //@   opt alloc=MaxPointsAlloc
 
+// every member point is read in the byte order of its OWN header, not the enclosing multi-point's
 //@ func readMultiPoint(r, order, buf)
 //@   requires r != nil && len(buf) == 8
 //@   modifies buf[*]
+//@   callpre readPoint: arg1 == pOrder
+//@   callpre readUint32: arg1 == order
 //@   loop 1: invariant fresh(result) && result != nil
 //@   opt alloc=MaxPointsAlloc
 
